@@ -208,7 +208,17 @@ func (r *repository) addRulesTo(tree *radixtree.Tree[rule.Route], rules []rule.R
 
 func (r *repository) removeRulesFrom(tree *radixtree.Tree[rule.Route], tbdRules []rule.Rule) error {
 	for _, rul := range tbdRules {
+		var handled []string
+
 		for _, route := range rul.Routes() {
+			// multiple routes of a rule can make use of the same path expression. The deletion
+			// below removes all of them at once
+			if slices.Contains(handled, route.Path()) {
+				continue
+			}
+
+			handled = append(handled, route.Path())
+
 			if err := tree.Delete(
 				route.Path(),
 				radixtree.ValueMatcherFunc[rule.Route](func(route rule.Route) bool {
